@@ -2,7 +2,8 @@
 from .facts import AnchorMissing, callee_def, op_place, op_const, is_bare
 from .util import (SUBR, RTRAIT, ends, site, fn_key, callee_method, require, has_call, has_field, find_dispatch,
                    closure_bodies_created_in, transitive_closures, edge_is_true, src_field, edges_where,
-                   unreachable_without_edges, deep_atoms, direct_field, direct_place, field_accesses)
+                   unreachable_without_edges, deep_atoms, direct_field, direct_place, field_accesses, origin,
+                   place_fields)
 from . import options
 
 PREFIX_OF = {"Header": "header_prefix", "BlockQuote": "quote_prefix", "Ul": "unordered_item_prefix",
@@ -101,13 +102,13 @@ def rule_sub_widths(ctx, rid):
     n = 0
     for (b, bb, t) in cs:
         n += 1
-        at = b.atoms(t["args"][1], stop_calls=lambda c: bool(c) and c.endswith("width_minus"))
-        from_wm = has_call(at, "SubRenderer::<D>::width_minus")
-        from_col = has_field(at, "RenderTableCell", "col_width")
-        arith = [a for a in at if a[0] == "bin"]
-        ctx.check((from_wm or from_col) and not arith, rid, "sub-width-source@%s#%s" % (fn_key(b), norm(b.expr_top(t["args"][1], expand_named=True))[:40]),
-                  t["span"], b.id, "a nested block's width must be width_minus(..) or the allocated column width; got %s"
-                  % norm(b.expr_top(t["args"][1], expand_named=True))[:80])
+        o = origin(b, t["args"][1])
+        from_wm = o is not None and o[0] == "call" and ends(callee_def(o[1]), "SubRenderer::<D>::width_minus")
+        from_col = o is not None and o[0] == "place" and place_fields(o[1])[-1:] == [("RenderTableCell", "col_width")]
+        what = ("call " + str(callee_def(o[1]))) if (o and o[0] == "call") else (b.expr(o[1]) if (o and o[0] == "place") else str(o))
+        ctx.check(from_wm or from_col, rid, "sub-width-source@%s#%s" % (fn_key(b), norm(what)[-40:]),
+                  t["span"], b.id, "a nested block's width must be the result of width_minus(..) or the allocated column width; "
+                  "it is %s" % norm(what)[:100])
     ctx.floor(rid, "new_sub_renderer call sites", n, 7)
 
 
